@@ -4,6 +4,11 @@ The real `_chains`, `_fragments`, `linear_hash_set`, `linear_hash_smiles`, `line
 `_morgan_hash_dict`, `morgan_hash_set`, `morgan_bit_set`, `morgan_fingerprint` are called on every molecule of the domain over the
 parameter grid and compared with the reference semantics of oracles/o17_ref.py (shared simple-path enumerator, independent
 neighbourhood hasher, independent folding) and with themselves under renumbering and insertion-order shuffles.  Never counted as proof.
+
+Coverage audit (2026-10): also `linear_smiles_hash`, `morgan_hash_smiles`, `morgan_smiles_hash`, every default and keyword spelling, lengths
+2^0..2^4 / 2^13 / 2^16 / 2^20, the written fragment SMILES (read back by oracles/o17_extra.py), CGRContainer inputs (FingerprintsCGR), the
+hand-written input classes of bounded/d17_extra.py (salts, isotopes, explicit H, radicals, metals, cages, the empty molecule, an atom-type
+table), a deterministic descending / gapped / > 999 numbering, aliasing of returned containers and an edit sequence on a fingerprinted copy.
 """
 from collections import Counter
 
@@ -17,6 +22,7 @@ RADII = [(lo, hi) for lo in range(1, 7) for hi in range(lo, 7)]          # 21 (m
 LENGTHS = [1 << k for k in range(5, 13)]                                  # 2^5 .. 2^12
 NABS = [1, 2, 3, 4]
 CAPS = [0, 1, 2, 3, 4, 5]                                                 # number_bit_pairs 0-5 (0 = unlimited)
+EXT_LENGTHS = [1, 2, 4, 8, 16, 1 << 13, 1 << 16, 1 << 20]                  # boundary lengths 2^0..2^4, 2^13, 2^16 (4 windows = 64 bits), 2^20 (sign extension)
 MAX_REPORT = 25
 # linear_hash_smiles lists, per hash, the SMILES of ONE arbitrary chain of the fragment (chains[0]); which chain is first depends on set
 # iteration order, hence on atom numbering (e.g. 'n' vs 'N' for Nc1ccc2ccccc2n1).  The property text names fingerprints, hash sets and
@@ -36,23 +42,34 @@ def _params(tag, lo, hi, *rest):
     return f'{tag}({lo},{hi}' + ''.join(f',{x}' for x in rest) + ')'
 
 
-def check_molecule(m, r, full_caps=True, n_variants=2):
-    """all C17 contracts on one molecule; returns (failures [(contract, params, what, native)], evaluations, info)"""
+def _mol_variant(m, r, v):
+    """numbering / insertion-order variant v of molecule m: (variant, map old -> new number, how)"""
+    from bounded import domains as D
+    if v % 2 == 0:
+        c, mp = D.renumber(m, r, offset=r.choice((0, 0, 5, 1000)))
+        return c, mp, {'renumber': {str(k): x for k, x in mp.items()}}
+    return D.rebuild(m, r), {n: n for n in m}, {'rebuild': 'shuffled insertion order of atoms and bonds'}
+
+
+def check_molecule(m, r, full_caps=True, n_variants=2, view=None, make_variant=None, det_variant=True, edits=True):
+    """all C17 contracts on one molecule (or CGR: view = CGRView); returns (failures [(contract, params, what, native)], evaluations, info)"""
     import numpy as np
     from bounded import domains as D
     from oracles import o17_ref as R
+    from oracles import o17_extra as X
+    view = view or X.MolView
     fails, seen = [], set()
     nev = 0
 
-    def fail(contract, params, what, native=None):
-        if contract not in seen:      # first failing parameter set per contract and molecule
-            seen.add(contract)
+    def fail(contract, params, what, native=None, slot=None):
+        if (contract, slot) not in seen:      # first failing parameter set per contract (and slot) and molecule
+            seen.add((contract, slot))
             fails.append((contract, params, what, native))
 
-    adj = R.adjacency(m)
+    adj = view.adjacency(m)
     ids = m._atom_identifiers
     # identifiers: a function of (isotope, element, charge, radical) only, and distinct for distinct attribute tuples -----------------------
-    akeys = {n: R.atom_key(a) for n, a in m.atoms()}
+    akeys = {n: view.atom_key(a) for n, a in m.atoms()}
     by_key, by_id = {}, {}
     for n in akeys:
         by_key.setdefault(akeys[n], set()).add(ids[n])
@@ -61,9 +78,16 @@ def check_molecule(m, r, full_caps=True, n_variants=2):
     if set(ids) != set(akeys) or any(len(v) > 1 for v in by_key.values()):
         fail('atom-identifiers-structure-only', '', 'atoms with equal isotope/element/charge/radical have different identifiers',
              {str(k): sorted(v) for k, v in by_key.items() if len(v) > 1})
-    if any(len(v) > 1 for v in by_id.values()):
-        fail('atom-identifiers-distinguish', '', 'atoms with different isotope/element/charge/radical share an identifier',
-             {str(k): sorted(v) for k, v in by_id.items() if len(v) > 1})
+    for i, grp in sorted((i, sorted(v)) for i, v in by_id.items() if len(v) > 1):
+        # family predicate on the input (not on the outcome): the colliding atom types differ only by the value -1 versus -2 of a charge field
+        # (CPython: hash(-1) == hash(-2), so tuples that differ only there hash equal); any other collision keeps its own key
+        minus = len({tuple(-2 if x == -1 and x is not True else x for x in k) for k in grp}) == 1
+        if minus:
+            fail('atom-identifiers-distinguish', 'charge-1~-2', f'atoms that differ only in charge -1 / -2 share an identifier, e.g. types {grp} '
+                 f'(isotope, element, charge[, product charge], radical[, product radical]) -> {i}', {str(i): [list(k) for k in grp]}, slot='minus')
+        else:
+            fail('atom-identifiers-distinguish', '~'.join(str(k).replace(' ', '') for k in grp),
+                 f'atoms with different isotope/element/charge/radical share the identifier {i}: {grp}', {str(i): [list(k) for k in grp]}, slot='other')
 
     paths = R.paths_by_length(adj, 6)
     levels = R.morgan_levels(adj, ids, 6)
@@ -131,19 +155,131 @@ def check_molecule(m, r, full_caps=True, n_variants=2):
         if ms != {x for lv in levels[lo - 1:hi] for x in lv.values()}:
             fail('morgan_hash_set', _params('morgan_hash_set', lo, hi), 'not the set of identifiers of the requested radii')
 
-    # linear_hash_smiles: same hashes ---------------------------------------------------------------------------------------------------------
+    # linear_hash_smiles / linear_smiles_hash: same hashes for every cap (the cap logic is a second copy of linear_hash_set's); each listed
+    # SMILES reads (independent token reader) as one simple path of a fragment with that hash; linear_smiles_hash is the inverse relation ------
+    def spellings(lo, hi):
+        by_class = {}
+        for L in range(lo, hi + 1):
+            for p in paths.get(L, ()):
+                toks = tuple(view.token(m._atoms[n]) for n in p)
+                ords = tuple(adj[x][y] for x, y in zip(p, p[1:]))
+                by_class.setdefault(R.klass(R.descriptor(p, adj, ids)), set()).update(((toks, ords), (toks[::-1], ords[::-1])))
+        return by_class
+
+    smi_calls = [(1, 4, cap) for cap in CAPS + [None]]
     for _ in range(2):
         lo, hi = r.choice(RADII)
-        cap = r.choice(CAPS)
+        smi_calls.append((lo, hi, r.choice(CAPS)))
+    spell_cache = {}
+    for lo, hi, cap in smi_calls:
         try:
             d = m.linear_hash_smiles(lo, hi, cap)
+            inv = m.linear_smiles_hash(lo, hi, cap)
         except Exception as e:
             fail('linear_hash_smiles-raises', _params('linear_hash_smiles', lo, hi, cap), f'{type(e).__name__}: {e}')
             continue
-        nev += 1
+        nev += 2
         if set(d) != lin_hashes.get((lo, hi, cap), m.linear_hash_set(lo, hi, cap)) or \
                 not all(isinstance(v, list) and v and all(isinstance(s, str) for s in v) for v in d.values()):
             fail('linear_hash_smiles-keys', _params('linear_hash_smiles', lo, hi, cap), 'keys are not the hash set / values not SMILES lists')
+        pairs = [(k, s) for s, v in inv.items() for k in v]
+        if set(pairs) != {(k, s) for k, v in d.items() for s in v} or len(pairs) != len(set(pairs)):
+            fail('linear_smiles_hash-inverse', _params('linear_smiles_hash', lo, hi, cap),
+                 'linear_smiles_hash is not the inverse relation {SMILES: hashes} of linear_hash_smiles for the same parameters',
+                 {'pairs': len(pairs), 'expected': sum(len(v) for v in d.values())})
+        if view.token is not None and cap in (None, 4):
+            if (lo, hi) not in spell_cache:
+                spell_cache[lo, hi] = spellings(lo, hi)
+            sp = spell_cache[lo, hi]
+            allowed = {}
+            for k, c in frag_tables[lo, hi].items():
+                for i in range(c if not cap else min(c, cap)):
+                    allowed.setdefault(hash((*k, i)), set()).update(sp.get(R.klass(k), ()))
+            for h, v in d.items():
+                for sm in v:
+                    rd = X.read_linear(sm) if isinstance(sm, str) else None
+                    if rd is None or (tuple(rd[0]), tuple(rd[1])) not in allowed.get(h, ()):
+                        fail('linear_hash_smiles-spells-fragment', _params('linear_hash_smiles', lo, hi, cap),
+                             f'the SMILES {sm!r} listed for hash {h} does not read as (isotope, element, charge / bond order) sequence of any '
+                             f'simple path of a fragment with that hash', {'smiles': sm, 'read': rd})
+                        break
+
+    # morgan_hash_smiles / morgan_smiles_hash: keys = identifiers of the requested radii; the SMILES listed for an identifier of radius r are
+    # the neighbourhoods within r - 1 bonds of the atoms carrying it (atom-token multiset read independently); inverse relation ---------------
+    mor_calls = [(1, 4)] if len(adj) <= 30 else []
+    lo = r.randint(1, 6)
+    mor_calls.append((lo, min(6, lo + r.randint(0, 1 if len(adj) > 30 else 2))))
+    for lo, hi in mor_calls:
+        try:
+            d = m.morgan_hash_smiles(lo, hi)
+            inv = m.morgan_smiles_hash(lo, hi)
+        except Exception as e:
+            fail('morgan_hash_smiles-raises', _params('morgan_hash_smiles', lo, hi), f'{type(e).__name__}: {e}')
+            continue
+        nev += 2
+        if set(d) != {x for lv in levels[lo - 1:hi] for x in lv.values()} or \
+                not all(isinstance(v, list) and v and all(isinstance(s, str) for s in v) for v in d.values()):
+            fail('morgan_hash_smiles-keys', _params('morgan_hash_smiles', lo, hi), 'keys are not the identifiers of the requested radii / values not SMILES lists')
+        pairs = [(k, s) for s, v in inv.items() for k in v]
+        if set(pairs) != {(k, s) for k, v in d.items() for s in v} or len(pairs) != len(set(pairs)):
+            fail('morgan_smiles_hash-inverse', _params('morgan_smiles_hash', lo, hi),
+                 'morgan_smiles_hash is not the inverse relation {SMILES: identifiers} of morgan_hash_smiles for the same parameters')
+        if view.token is not None:
+            exp = {}
+            for rad in range(lo, hi + 1):
+                for a, h in levels[rad - 1].items():
+                    exp.setdefault(h, set()).add(frozenset(Counter(view.token(m._atoms[n]) for n in X.ball(adj, a, rad - 1)).items()))
+            for h, v in d.items():
+                got = set()
+                for sm in v:
+                    cp = X.composition(sm) if isinstance(sm, str) else None
+                    got.add(None if cp is None else frozenset(cp.items()))
+                if got != exp.get(h):
+                    fail('morgan_hash_smiles-neighbourhood', _params('morgan_hash_smiles', lo, hi),
+                         f'the SMILES {v} listed for identifier {h} do not have the atoms of the neighbourhoods (radius r = r - 1 bonds) of the atoms '
+                         f'carrying it', {'smiles': v, 'expected_atoms': sorted(sorted(map(str, x)) for x in exp.get(h, ()))[:3]})
+                    break
+
+    # defaults (1, 4, 1024, 2, 4) and keyword spelling of every public parameter ---------------------------------------------------------------------
+    dm = {x for lv in levels[0:4] for x in lv.values()}
+    nev += 8
+    dflt = [('_chains', lambda: {min(t, t[::-1]) for t in map(tuple, m._chains())}, {min(t, t[::-1]) for t in map(tuple, m._chains(1, 4))}),
+            ('_fragments', lambda: {tuple(k): len(v) for k, v in m._fragments().items()}, frag_tables[1, 4]),
+            ('linear_hash_set', m.linear_hash_set, lin_hashes[1, 4, 4]),
+            ('linear_bit_set', m.linear_bit_set, R.fold(lin_hashes[1, 4, 4], 1024, 2)),
+            ('linear_hash_smiles', lambda: set(m.linear_hash_smiles()), lin_hashes[1, 4, 4]),
+            ('linear_smiles_hash', lambda: {k for v in m.linear_smiles_hash().values() for k in v}, lin_hashes[1, 4, 4]),
+            ('_morgan_hash_dict', lambda: [dict(x) for x in m._morgan_hash_dict()], levels[0:4]),
+            ('morgan_hash_set', m.morgan_hash_set, dm),
+            ('morgan_bit_set', m.morgan_bit_set, R.fold(dm, 1024, 2))]
+    if len(adj) <= 30:
+        dflt.append(('morgan_hash_smiles', lambda: set(m.morgan_hash_smiles()), dm))
+    for name, call, exp in dflt:
+        if call() != exp:
+            fail('default-parameters', name + '()', 'the call without arguments is not the call with min_radius=1, max_radius=4, length=1024, '
+                 'number_active_bits=2, number_bit_pairs=4')
+    lo, hi = r.choice(RADII)
+    cap, nab, length = r.choice(CAPS), r.choice(NABS), r.choice(LENGTHS)
+    ms = {x for lv in levels[lo - 1:hi] for x in lv.values()}
+    nev += 7
+    kw = [('linear_hash_set', dict(number_bit_pairs=cap, max_radius=hi, min_radius=lo), lin_hashes[lo, hi, cap], None),
+          ('linear_bit_set', dict(number_bit_pairs=cap, number_active_bits=nab, length=length, max_radius=hi, min_radius=lo),
+           R.fold(lin_hashes[lo, hi, cap], length, nab), None),
+          ('linear_fingerprint', dict(number_bit_pairs=cap, number_active_bits=nab, length=length, max_radius=hi, min_radius=lo),
+           R.fold(lin_hashes[lo, hi, cap], length, nab), lambda a: {int(i) for i in np.flatnonzero(a)}),
+          ('linear_hash_smiles', dict(number_bit_pairs=cap, max_radius=hi, min_radius=lo), lin_hashes[lo, hi, cap], set),
+          ('morgan_hash_set', dict(max_radius=hi, min_radius=lo), ms, None),
+          ('morgan_bit_set', dict(number_active_bits=nab, length=length, max_radius=hi, min_radius=lo), R.fold(ms, length, nab), None),
+          ('morgan_fingerprint', dict(number_active_bits=nab, length=length, max_radius=hi, min_radius=lo), R.fold(ms, length, nab),
+           lambda a: {int(i) for i in np.flatnonzero(a)})]
+    for name, kwargs, exp, conv in kw:
+        try:
+            got = getattr(m, name)(**kwargs)
+        except TypeError as e:
+            fail('keyword-parameters', f'{name}(**{kwargs})', f'documented keyword not accepted: {e}')
+            continue
+        if (conv(got) if conv else got) != exp:
+            fail('keyword-parameters', f'{name}(**{kwargs})', 'the call with keyword arguments differs from the reference for these parameters')
 
     # folding: every (length, active bits) of the grid with seeded radii / cap --------------------------------------------------------------------
     bit_calls = []
@@ -172,8 +308,28 @@ def check_molecule(m, r, full_caps=True, n_variants=2):
                 fail('bits-follow-active-bits', _params('morgan_bit_set', lo, hi, length, nab),
                      f'bit set differs from the {nab} lowest {length.bit_length() - 1}-bit windows of each hash: {len(bs)} bits, expected '
                      f'{len(R.fold(ms, length, nab))} from {len(ms)} hashes')
+    # boundary lengths 2^k outside 2^5..2^12: every active-bits value; one array per length ------------------------------------------------------
+    ext_calls = []
+    for length in EXT_LENGTHS:
+        lo, hi = r.choice(RADII)
+        cap = r.choice([c for c in CAPS + [None] if (lo, hi, c) in lin_hashes])
+        hs = lin_hashes[lo, hi, cap]
+        lo2, hi2 = r.choice(RADII)
+        ms = {x for lv in levels[lo2 - 1:hi2] for x in lv.values()}
+        for nab in NABS:
+            nev += 2
+            for tag, bs, ref, prm in (('linear_bit_set', m.linear_bit_set(lo, hi, length, nab, cap), hs, (lo, hi, length, nab, cap)),
+                                      ('morgan_bit_set', m.morgan_bit_set(lo2, hi2, length, nab), ms, (lo2, hi2, length, nab))):
+                if any(not isinstance(x, int) or not 0 <= x < length for x in bs):
+                    fail('bit-index-range', _params(tag, *prm), f'index outside 0..{length - 1}: {sorted(bs)[:3]}..{sorted(bs)[-3:]}')
+                elif bs != R.fold(ref, length, nab) or len(bs) > nab * len(ref):
+                    fail('bits-follow-active-bits', _params(tag, *prm),
+                         f'bit set differs from the {nab} lowest {length.bit_length() - 1}-bit windows of each hash: {len(bs)} bits, expected '
+                         f'{len(R.fold(ref, length, nab))} from {len(ref)} hashes')
+        nab = r.choice(NABS)
+        ext_calls += [('l', lo, hi, length, nab, cap), ('m', lo2, hi2, length, nab)]
     # arrays ------------------------------------------------------------------------------------------------------------------------------------
-    arr_calls = r.sample(bit_calls, 6)
+    arr_calls = r.sample(bit_calls, 6) + [c for c in ext_calls if c[3] <= 1 << 16]
     for call in arr_calls:
         if call[0] == 'l':
             _, lo, hi, length, nab, cap = call
@@ -197,14 +353,15 @@ def check_molecule(m, r, full_caps=True, n_variants=2):
         ref_smiles = {k: sorted(x) for k, x in m.linear_hash_smiles(1, 4, 4).items()}
     except Exception:
         ref_smiles = None
-    for v in range(n_variants):
-        if v % 2 == 0:
-            c, mp = D.renumber(m, r, offset=r.choice((0, 0, 5, 1000)))
-            how = {'renumber': {str(k): x for k, x in mp.items()}}
+    make_variant = make_variant or (lambda v, rr: _mol_variant(m, rr, v))
+    variants = list(range(n_variants)) + (['descending-gapped'] if det_variant else [])
+    for v in variants:
+        if v == 'descending-gapped':      # deterministic: numbers descending along the old order, gaps of 7, all > 999, reversed insertion order
+            from bounded import d17_extra as E
+            c, mp = E.descending_gapped(m)
+            how = {'descending-gapped': {str(k): x for k, x in mp.items()}}
         else:
-            c = D.rebuild(m, r)
-            mp = {n: n for n in m}
-            how = {'rebuild': 'shuffled insertion order of atoms and bonds'}
+            c, mp, how = make_variant(v, r)
         for lo, hi in RADII:
             fr = {tuple(k): len(x) for k, x in c._fragments(lo, hi).items()}
             nev += 1
@@ -246,18 +403,175 @@ def check_molecule(m, r, full_caps=True, n_variants=2):
                     (c.morgan_fingerprint(lo, hi, length, nab) == m.morgan_fingerprint(lo, hi, length, nab)).all()
             if not same:
                 fail('renumbering:fingerprint', _params('bit_set/fingerprint', *call[1:]), 'bit set / array changes under ' + next(iter(how)), how)
-    info = {'atoms': len(adj), 'simple_paths<=6': sum(len(v) for v in paths.values()), 'max_fragment_multiplicity': max_mult,
-            'distinct_identifiers_radius6': len(set(levels[-1].values())), 'hash_smiles_values_differ': smiles_values_differ}
+    # aliasing: results handed out are not shared with later calls ---------------------------------------------------------------------------------
+    nev += 1
+    before = ({tuple(k): sorted(map(tuple, v)) for k, v in m._fragments(1, 4).items()}, [dict(x) for x in m._morgan_hash_dict(1, 3)],
+              dict(m._atom_identifiers), set(map(tuple, m._chains(1, 3))), set(m.linear_hash_set()), set(m.morgan_hash_set()),
+              {k: sorted(v) for k, v in m.linear_hash_smiles().items()})
+    fr = m._fragments(1, 4)
+    for v in fr.values():
+        v.clear()
+    fr.clear()
+    for x in m._morgan_hash_dict(1, 3):
+        x.clear()
+    m._atom_identifiers.clear()
+    for x in (m._chains(1, 3), m.linear_hash_set(), m.morgan_hash_set(), m.linear_bit_set(), m.morgan_bit_set()):
+        x.clear()
+    for v in m.linear_hash_smiles().values():
+        v.clear()
+    after = ({tuple(k): sorted(map(tuple, v)) for k, v in m._fragments(1, 4).items()}, [dict(x) for x in m._morgan_hash_dict(1, 3)],
+             dict(m._atom_identifiers), set(map(tuple, m._chains(1, 3))), set(m.linear_hash_set()), set(m.morgan_hash_set()),
+             {k: sorted(v) for k, v in m.linear_hash_smiles().items()})
+    if before != after:
+        names = ('_fragments', '_morgan_hash_dict', '_atom_identifiers', '_chains', 'linear_hash_set', 'morgan_hash_set', 'linear_hash_smiles')
+        fail('results-not-shared', '', f'emptying the returned containers changes later results of {[n for n, a, b in zip(names, before, after) if a != b]}')
+
+    # call sequence: documented edits of an already fingerprinted molecule; afterwards the fingerprints are those of a freshly built equal one ---
+    edit_aborted = None
+    if edits and view.kind == 'mol':
+        c = m.copy()
+        for f in (c.linear_hash_set, c.morgan_hash_set, c.linear_fingerprint, c.morgan_fingerprint, c.linear_hash_smiles, lambda: c._fragments(1, 6),
+                  lambda: c._morgan_hash_dict(1, 6)):
+            f()
+        log = []
+
+        def same(step):
+            nonlocal nev
+            nev += 1
+            log.append(step)
+            f = D.rebuild(c, keep_stereo=False)
+            for name, args in (('linear_hash_set', (1, 4, 0)), ('morgan_hash_set', (1, 4)), ('linear_bit_set', ()), ('morgan_bit_set', ()),
+                               ('linear_hash_set', (2, 6, 2)), ('morgan_hash_set', (3, 6))):
+                try:
+                    got = getattr(c, name)(*args)
+                except Exception as e:
+                    if not _library_frame(e):
+                        raise
+                    fail('after-edit=fresh', f'{name}{args}', f'after the edit sequence {log} of a molecule whose fingerprints had been computed, '
+                         f'{name} raises {type(e).__name__}: {e}', {'edits': list(log)})
+                    return
+                if got != getattr(f, name)(*args):
+                    fail('after-edit=fresh', f'{name}{args}', f'after the edit sequence {log} of a molecule whose fingerprints had been computed, '
+                         f'{name} differs from the same call on a freshly built copy of the edited molecule', {'edits': list(log)})
+                    return
+
+        # library transformations that flush the cache only partially (keep_sssr / keep_components) come first
+        for name in ('kekule', 'explicify_hydrogens', 'implicify_hydrogens', 'thiele', 'neutralize'):
+            try:
+                getattr(c, name)()
+            except Exception as e:      # the transformation itself is outside C17: stop, count it
+                edit_aborted = f'{name}: {type(e).__name__}: {e}'
+                break
+            same([name])
+        atoms = list(c)
+        st = {}
+
+        def s_add_atom():
+            st['new'] = c.add_atom(r.choice(('C', 'N', 'O', 'Cl')))
+            return ['add_atom', st['new']]
+
+        def s_add_bond():
+            st['a'] = r.choice(atoms)
+            c.add_bond(st['a'], st['new'], 1)
+            return ['add_bond', st['a'], st['new'], 1]
+
+        def s_charge():
+            x = r.choice(atoms)
+            c.atom(x).charge = 1 if c.atom(x).charge != 1 else 0
+            c.flush_cache()
+            return ['atom(x).charge=; flush_cache', x, c.atom(x).charge]
+
+        def s_radical():
+            x = r.choice(atoms)
+            c.atom(x).is_radical = not c.atom(x).is_radical
+            c.flush_cache()
+            return ['atom(x).is_radical=; flush_cache', x]
+
+        def s_isotope():
+            y = r.choice(atoms)
+            iso = sorted(c.atom(y).isotopes_distribution)[-1]
+            c.atom(y).isotope = iso
+            c.flush_cache()
+            return ['atom(y).isotope=; flush_cache', y, iso]
+
+        def s_del_new_bond():
+            c.delete_bond(st['a'], st['new'])
+            return ['delete_bond', st['a'], st['new']]
+
+        def s_del_bond():
+            bl = [(p, q) for p, q, _ in c.bonds()]
+            if not bl:
+                return None
+            p, q = r.choice(bl)
+            c.delete_bond(p, q)
+            return ['delete_bond', p, q]
+
+        def s_del_new():
+            c.delete_atom(st['new'])
+            return ['delete_atom', st['new']]
+
+        def s_del_atom():
+            z = r.choice(atoms)
+            c.delete_atom(z)
+            return ['delete_atom', z]
+
+        steps = [s_add_atom] + ([s_add_bond, s_charge, s_radical, s_isotope, s_del_new_bond, s_del_bond] if atoms else []) + [s_del_new] + \
+            ([s_del_atom] if len(atoms) > 1 else [])
+        for step in steps:
+            try:
+                done = step()
+            except Exception as e:      # the editing API itself is outside C17: stop the sequence, count it
+                edit_aborted = (edit_aborted + '; ' if edit_aborted else '') + f'{step.__name__}: {type(e).__name__}: {e}'
+                break
+            if done is not None:
+                same(done)
+    idmap = {}
+    for n, k in akeys.items():
+        idmap.setdefault(k, ids[n])
+    info = {'idmap': [[list(k), v] for k, v in idmap.items()], 'atoms': len(adj), 'simple_paths<=6': sum(len(v) for v in paths.values()), 'max_fragment_multiplicity': max_mult,
+            'distinct_identifiers_radius6': len(set(levels[-1].values())), 'hash_smiles_values_differ': smiles_values_differ, 'edit_aborted': edit_aborted}
     return fails, nev, info
 
 
 # ---------------------------------------------------------------------------------------------------------------------------------
 def _build_item(item):
-    """returns (name, molecule, witness dict)"""
+    """returns (name, molecule or CGR, witness dict, options for check_molecule)"""
     import networkx as nx
     from bounded import domains as D
-    if item[0] == 'smiles':
-        return 'smi:' + item[1], D.parse(item[1]), {'smiles': item[1], 'normalised': 'kekule+thiele'}
+    kind = item[0]
+    if kind == 'smiles':
+        return 'smi:' + item[1], D.parse(item[1]), {'smiles': item[1], 'normalised': 'kekule+thiele'}, {}
+    if kind in ('special', 'special-raw'):      # hand-written input classes; -raw: as parsed (Kekule rings stay Kekule, no thiele)
+        return f'{kind}:{item[1]}', D.parse(item[1], normalise=kind == 'special'), {'item': list(item)}, {}
+    if kind == 'empty':
+        from chython.containers import MoleculeContainer
+        return 'empty', MoleculeContainer(), {'item': list(item)}, {}
+    if kind == 'grid':
+        from bounded import d17_extra as E
+        return 'grid', E.atom_grid()[0], {'item': list(item), 'builder': 'bounded.d17_extra.atom_grid'}, {}
+    if kind == 'cgr':
+        from bounded import d17_extra as E
+        from oracles import o17_extra as X
+        _, smi, k = item[:3]
+        m = D.parse(smi)
+        p, edits = E.cgr_pair(m, D.rnd(f'b17:cgr:{smi}/{k}'))
+        cgr = m ^ p
+
+        def make_variant(v, r):
+            if v % 2 == 0:
+                nums = list(cgr._atoms)
+                off = r.choice((0, 5, 1000))
+                tgt = [x + off for x in nums]
+                r.shuffle(tgt)
+                mp = dict(zip(nums, tgt))
+                a, b = m.copy(), p.copy()
+                a.remap({x: y for x, y in mp.items() if x in a._atoms})
+                b.remap({x: y for x, y in mp.items() if x in b._atoms})
+                return a ^ b, mp, {'renumber both molecules, compose again': {str(x): y for x, y in mp.items()}}
+            return D.rebuild(m, r, keep_stereo=False) ^ D.rebuild(p, r, keep_stereo=False), {n: n for n in cgr._atoms}, \
+                {'rebuild': 'both molecules rebuilt with shuffled insertion order of atoms and bonds, composed again'}
+        return f'cgr:{smi}/{k}', cgr, {'item': list(item), 'cgr': 'parse(smiles) ^ partner', 'partner_edits': edits, 'cgr_smiles': str(cgr)}, \
+            {'view': X.CGRView, 'make_variant': make_variant, 'det_variant': False, 'edits': False}
     _, name, nodes, edges, el, od, marks, _tier = item
     g = nx.Graph()
     g.add_nodes_from(nodes)
@@ -267,7 +581,16 @@ def _build_item(item):
         a = m._atoms[nodes.index(v) + 1]
         a._isotope, a._charge, a._is_radical = iso, chg, rad
     m.flush_cache()
-    return name, m, {'graph': name, 'elements': el, 'bonds': [[a, b, o] for (a, b), o in od], 'atom_marks(isotope,charge,radical)': marks}
+    return name, m, {'graph': name, 'elements': el, 'bonds': [[a, b, o] for (a, b), o in od], 'atom_marks(isotope,charge,radical)': marks}, {}
+
+
+def _library_frame(e):
+    """True when the exception was raised inside the tree under verification (innermost frame), not in the checker"""
+    import os
+    tb = e.__traceback__
+    while tb.tb_next is not None:
+        tb = tb.tb_next
+    return os.path.realpath(tb.tb_frame.f_code.co_filename).startswith(os.path.realpath(env.REPO) + os.sep)
 
 
 def _work(item):
@@ -282,11 +605,19 @@ def _work(item):
     signal.alarm(ITEM_BUDGET_S if not _TIMEOUTS[0] else 10)
     try:
         try:
-            name, m, wit = _build_item(item)
+            name, m, wit, opts = _build_item(item)
         except Exception as e:      # parser / builder failure: other properties; skipped and counted
-            return 0, [], [], [], {'skipped': [f'{item[1]}: {type(e).__name__}: {e}']}
+            return 0, [], [], [], {'skipped': [f'{item[1] if len(item) > 1 else item[0]}: {type(e).__name__}: {e}']}
         r = D.rnd('b17:' + name)
-        fails, nev, info = check_molecule(m, r, full_caps=True, n_variants=4 if item[0] != 'smiles' or item[2] else 2)
+        try:
+            fails, nev, info = check_molecule(m, r, full_caps=True, n_variants=4 if item[0] == 'atlas' or item[-1] is True else 2, **opts)
+        except Exception as e:
+            if not _library_frame(e):
+                raise
+            import traceback
+            fr = traceback.extract_tb(e.__traceback__)[-1]
+            fails, nev, info = [('raises', f'{fr.name}', f'a fingerprint call raised {type(e).__name__}: {e} at {fr.filename.rsplit("/", 1)[-1]}:{fr.lineno} '
+                                 f'(the property holds for all molecules)', traceback.format_exc()[-1500:])], 1, {}
         viols = [(f'{c}:{name}:{params}', f'{c}: {what} [{name} {params}]', {'contract': c, 'params': params, **wit}, nat)
                  for c, params, what, nat in fails]
         keys = [name] if any(True for _ in m.bonds()) else []
@@ -322,6 +653,35 @@ def bounded(run):
             odl[i] = (odl[i][0], 8)
         items.append(('atlas', f'{g.name}/{n_at}', nodes, edges, dict(el), odl, marks, thorough))
         n_at += 1
+    from bounded import d17_extra as E
+    n_sp = 0
+    for sm in E.SPECIAL_SMILES:
+        items.append(('special', sm, thorough))
+        n_sp += 1
+        if any(ch in sm for ch in 'cnos=') or '[se]' in sm:      # as parsed: Kekule rings stay Kekule, aromatic atoms without H information
+            items.append(('special-raw', sm, thorough))
+            n_sp += 1
+    items += [('empty', thorough), ('grid', thorough)]
+    n_cgr = 0
+    for sm in D.corpus_sample(400 if thorough else 40, 'b17:cgr') + E.SPECIAL_SMILES[::4]:
+        for k in range(2 if thorough else 1):
+            items.append(('cgr', sm, k, thorough))
+            n_cgr += 1
+    run.bound(f'input classes outside the corpus: {n_sp} hand-written molecules (bounded/d17_extra.SPECIAL_SMILES: multi-component salts, isotope labels '
+              f'also on heteroatoms, explicit hydrogens, radicals, multiply charged atoms, metals, symmetric / cage / spiro / long-chain / macrocycle '
+              f'skeletons; also as parsed without kekule+thiele where that differs); the empty molecule; one bond-free molecule of 200+ pairwise different '
+              f'atom types (every element 1..118; H, C, N, O, Fe in every charge -4..4; isotope x charge x radical combinations) = injectivity of '
+              f'the identifiers on that table; {n_cgr} CGRContainers (corpus / special molecule ^ partner with 1-3 seeded bond-order, cleavage, formation, '
+              f'charge, radical, lost-atom edits) under the same contracts with FingerprintsCGR identifiers (key: isotope, element, charge, product '
+              f'charge, radical, product radical) and dynamic bonds as hash((order|0, product order|0))')
+    run.bound(f'additional calls per molecule: every documented default (call without arguments = (1, 4, 1024, 2, 4)) of the 10 public functions; one '
+              f'seeded all-keyword call of 7 functions; lengths {EXT_LENGTHS} x active bits 1..4 for both bit sets + one array per length <= 2^16; '
+              f'linear_hash_smiles + linear_smiles_hash for (1,4) x every cap + 2 seeded (keys, inverse relation, each SMILES read back by an '
+              f'independent token reader as a path of the fragment for cap 4/None); morgan_hash_smiles + morgan_smiles_hash for (1,4) (<= 30 atoms) + '
+              f'1 seeded radii pair (keys, inverse, atom multiset of the r-1 bond neighbourhood); one aliasing round (returned containers emptied); '
+              f'one edit sequence on a fingerprinted copy (kekule, explicify_hydrogens, implicify_hydrogens, thiele, neutralize, add_atom, add_bond, charge / radical / isotope setters + flush_cache, delete_bond x2, '
+              f'delete_atom x2; after each step 6 calls equal those of a fresh rebuild); one deterministic numbering variant (descending, gaps of 7, '
+              f'numbers > 999, reversed insertion order) besides the seeded ones; atom identifiers of equal atom types equal across all molecules of the run')
     run.bound(f'molecules: seeded sample of {n_cor} corpus SMILES (kekule+thiele normal form) + {n_at} decorations of every connected atlas graph '
               f'<= 6 atoms (elements C/N/O/S, bond orders 1-3, every third with isotope/charge/radical labels, every third with a coordinate bond)')
     run.bound(f'parameter grid per molecule: all {len(RADII)} (min, max) radii pairs in 1..6 for _chains, _fragments, _morgan_hash_dict, morgan_hash_set; '
@@ -335,17 +695,33 @@ def bounded(run):
                'neighbours sorted by (order, id); folding = the number_active_bits lowest log2(length)-bit windows of the hash)',
                'atom identifiers are taken from the library and required to be a function of (isotope, element, charge, radical) only and '
                'injective on the attribute tuples that occur',
+               'CGRContainer inputs: identifiers may depend on (isotope, element, charge, product charge, radical, product radical); a dynamic bond '
+               'enters descriptors as hash((order or 0, product order or 0)) (DynamicBond.__int__, outside the C17 anchors, recomputed by the oracle)',
+               'oracle: oracles/o17_extra.py token reader of linear / branched SMILES (isotope, element symbol case-insensitive, charge, bond symbol; '
+               'hydrogen counts, stereo marks, ring-closure digits and the CXSMILES radical list are skipped); Graph.substructure / __format__ used by '
+               'morgan_hash_smiles are outside the C17 anchors (C01/C02)',
+               'after-edit contract: domains.rebuild(copy) is a fresh container without memoised values',
                'Python hash() of int tuples is deterministic (no string hashing involved)',
                'fragments and neighbourhoods walk every bond of the bond table, coordinate bonds included (as the code does)')
-    order = sorted(range(len(items)), key=lambda i: -(len(items[i][1]) if items[i][0] == 'smiles' else 10))
+    order = sorted(range(len(items)), key=lambda i: -(len(items[i][1]) if items[i][0] in ('smiles', 'cgr', 'special', 'special-raw') else 300 if items[i][0] == 'grid' else 10))
     res = pmap(_work, [items[i] for i in order], chunksize=2)
     reported, suppressed = Counter(), Counter()
     skipped, timeouts = [], []
     obs = {'molecules': 0, 'differ': 0, 'examples': []}
     shown = Counter()
+    idtab, aborted = {}, []
     for i, (n, keys, samples, viols, extra) in zip(order, res):
         kind = items[i][0]
         sample = None
+        for sm in samples:
+            for k, v in sm.pop('idmap', ()):      # identifiers are a function of the atom type across the whole run
+                k = tuple(k)
+                if idtab.setdefault(k, (v, sm['molecule']))[0] != v:
+                    viols = viols + [(f'atom-identifiers-structure-only:global:{k}', f'atom-identifiers-structure-only: atoms of type {k} (isotope, '
+                                      f'element, charge[, product charge], radical[, product radical]) have identifier {idtab[k][0]} in {idtab[k][1]} and '
+                                      f'{v} in {sm["molecule"]}', {'contract': 'atom-identifiers-structure-only', 'molecules': [idtab[k][1], sm['molecule']]}, None)]
+            if sm.get('edit_aborted'):
+                aborted.append(f"{sm['molecule']}: {sm['edit_aborted']}")
         if samples and shown[kind] < 3 and samples[0].get('atoms', 0) > 2:
             shown[kind] += 1
             sample = samples[0]
@@ -371,6 +747,8 @@ def bounded(run):
         'examples': obs['examples'], 'why': 'linear_hash_smiles keeps the SMILES of chains[0] only; the first chain of a fragment depends on set order'}
     print(f"C17 bounded: observation (not enforced): linear_hash_smiles representative SMILES change under renumbering for "
           f"{obs['differ']} of {obs['molecules']} molecules", flush=True)
+    if aborted:
+        run.notes['edit_sequences_stopped_by_the_editing_api'] = {'count': len(aborted), 'examples': aborted[:5], 'why': 'the transformation / editing call itself raised (outside C17); the other steps of the sequence were still checked'}
     if suppressed:
         run.notes['violations_not_listed'] = {'why': f'more than {MAX_REPORT} new violations of the same contract', 'per_contract': dict(suppressed)}
         print(f'C17 bounded: further violations not listed (same contracts): {dict(suppressed)}', flush=True)
@@ -389,7 +767,9 @@ def replay(rec):
     env.setup()
     from bounded import domains as D
     w = rec.get('witness') or {}
-    if 'smiles' in w:
+    if 'item' in w:
+        item = tuple(w['item'][:-1]) + (True,)
+    elif 'smiles' in w:
         item = ('smiles', w['smiles'], True)
     elif 'graph' in w:
         bonds = [((a, b), o) for a, b, o in w['bonds']]
@@ -398,8 +778,13 @@ def replay(rec):
                 {int(k): tuple(v) for k, v in (w.get('atom_marks(isotope,charge,radical)') or {}).items()}, True)
     else:
         return False
-    name, m, _ = _build_item(item)
-    fails, _, _ = check_molecule(m, D.rnd('b17:' + name), full_caps=True, n_variants=4)
+    name, m, _, opts = _build_item(item)
+    try:
+        fails, _, _ = check_molecule(m, D.rnd('b17:' + name), full_caps=True, n_variants=4 if item[0] == 'atlas' or item[-1] is True else 2, **opts)
+    except Exception as e:
+        if not _library_frame(e):
+            raise
+        fails = [('raises', '', f'{type(e).__name__}: {e}', None)]
     print('native:', [(c, p, what) for c, p, what, _ in fails])
     c = w.get('contract')
     return not any(f[0] == c for f in fails) if c else not fails
